@@ -59,6 +59,14 @@ theorem ws_writeTidy {w : Writer} {L : Nat} {nl : Bool} (hw : WS w L nl) (item :
   have := ws_writeLiteral hw item h1 h2
   rwa [h3] at this
 
+theorem wsc_writeTidy {w : Writer} {L : Nat} {nl : Bool} (hw : WSc w L nl) (item : Bytes) (ht : tidy item = true)
+    (hh : item.head? ≠ some 10) :
+    (w.writeLiteral item).buffer = w.buffer ++ ((if nl then spacesL (4 * L) else []) ++ item).toArray ∧
+      WS (w.writeLiteral item) L false := by
+  obtain ⟨h1, h2, h3⟩ := tidy_ne_last ht
+  have := wsc_writeLiteral_plain hw item h1 hh h2
+  rwa [h3] at this
+
 theorem ws_newline {w : Writer} {L : Nat} (hw : WS w L false) :
     w.newline.buffer = w.buffer ++ #[10] ∧ WS w.newline L true := by
   obtain ⟨a, b, c⟩ := hw
@@ -128,11 +136,11 @@ theorem serVariants_sel (L : Nat) (vs : List (Variant Bytes))
 
 theorem serElement_select (L : Nat) (sel : Inline Bytes) (vs : List (Variant Bytes)) (hsel : validInline sel = true)
     (hv : ∀ v ∈ vs, validKey (variantKey' v) = true ∧ PatRT (L + 1) (variantValue v)) (w : Writer) (nl : Bool)
-    (hw : WS w L nl) :
+    (hw : WSc w L nl) :
     ∃ w', serElement w (.placeable (.select sel vs)) = some w' ∧
       w'.buffer = w.buffer ++ ((if nl then spacesL (4 * L) else []) ++ exprText L (.select sel vs)).toArray ∧
       WS w' L false := by
-  obtain ⟨hb1, hw1⟩ := ws_writeTidy hw [123, 32] (by decide)
+  obtain ⟨hb1, hw1⟩ := wsc_writeTidy hw [123, 32] (by decide) (by decide)
   obtain ⟨hs2, ht2⟩ := serInline_eq_bytes sel hsel (w.writeLiteral [123, 32])
   obtain ⟨hb2, hw2⟩ := ws_writeTidy hw1 (inlineBytes sel) ht2
   obtain ⟨hb3, hw3⟩ := ws_writeTidy hw2 [32, 45, 62] (by decide)
@@ -335,7 +343,7 @@ theorem stopper_after_variant (s : Src) (L G : Nat) (rest : List (Variant Bytes)
     by_cases hL : G = 0
     · subst hL
       right; left
-      exact ⟨125, by simpa using h125, by decide, by decide, by decide, by decide⟩
+      exact ⟨125, by simpa using h125, by decide, by decide, fun h => absurd h (by decide), by decide⟩
     · right; right
       exact ⟨G, 125, by omega, at_spaces s q _ h.1, h125, Or.inr (Or.inr (Or.inr rfl))⟩
   | cons v vs =>
